@@ -8,6 +8,7 @@ Wire format (VCD symbols may contain parentheses, so a symbol travels as the lis
 * `vcd decls (w…) clk (sig-net…)`          → `((w (codes…)) …)` one entry per declared signal
 * `vcd replay ((w (codes…))…) (ev…) n`      → `((v|x …) …)` per cycle, per declaration
 * `vcd edges (codes…) (ev…)`               → `((t v) …)` timestamped value lines of that symbol
+* `vcd wav w (v…)`                          → `(0b… …)` the text-wave record of a w-bit signal
 * `vcd sym n`                              → `(codes…)`
 with `ev` = `(t <time>)` or `(c <value token> (codes…))`; the value token is `0`, `1` or `b<digits>` — a `b…`
 token stands for the text `b<digits>` followed by the blank that separated it from the symbol in the file.
@@ -61,6 +62,8 @@ def handle (args : List Sexp) : Option String :=
       let evs ← evs.mapM ev?
       let r := edgesOf (← sym? s) none evs
       some ("(" ++ " ".intercalate (r.map (fun p => s!"({p.1} {p.2})")) ++ ")")
+  | [.atom "wav", w, vals] => do
+      some ("(" ++ " ".intercalate (wavRecord (← w.nat?) (← vals.nats?)) ++ ")")
   | [.atom "sym", n] => do some (symOut (symbol (← n.nat?)))
   | _ => none
 
